@@ -36,6 +36,23 @@ func (c *c14Case) isHTML() bool {
 	return strings.Contains(c.CType, "text/html") || strings.Contains(c.CType, "application/xhtml+xml")
 }
 
+// framed reports whether the request says it is already inside the banner frame:
+// the browser's fetch metadata, or a Referer naming the same host and path.
+func (c *c14Case) framed() bool {
+	if c.FetchDst == "iframe" || c.FetchMod == "nested-navigate" {
+		return true
+	}
+	p := c.Target
+	if i := strings.Index(p, "?"); i >= 0 {
+		p = p[:i]
+	}
+	r := c.Referer
+	if i := strings.Index(r, "?"); i >= 0 {
+		r = r[:i]
+	}
+	return r == "http://example.test"+p
+}
+
 // bannerMay reports whether the statement allows the banner frame for this exchange.
 func (c *c14Case) bannerMay() bool {
 	return c.Method == "GET" && strings.Contains(c.Accept, "text/html") && c.Status == 200 && c.isHTML() && !strings.Contains(c.CDisp, "attachment")
@@ -48,7 +65,11 @@ func genC14(t *sim.Tape, i int) *c14Case {
 	c.Accept = []string{"text/html,application/xhtml+xml,application/xml;q=0.9,*/*;q=0.8", "text/html", "*/*", "application/json", ""}[t.Pick("accept", 4, 2, 2, 1, 1)]
 	c.FetchDst = []string{"", "document", "iframe", "empty"}[t.Pick("fetchdest", 4, 2, 1, 1)]
 	c.FetchMod = []string{"", "navigate", "nested-navigate", "cors"}[t.Pick("fetchmode", 4, 2, 1, 1)]
-	c.Referer = []string{"", "http://example.test" + c.Target, "http://example.test/elsewhere", "http://other.test" + c.Target}[t.Pick("referer", 4, 1, 1, 1)]
+	pathOnly := c.Target
+	if i := strings.Index(pathOnly, "?"); i >= 0 {
+		pathOnly = pathOnly[:i]
+	}
+	c.Referer = []string{"", "http://example.test" + c.Target, "http://example.test/elsewhere", "http://other.test" + c.Target, "http://example.test" + pathOnly + "?page=2", "http://example.test" + pathOnly}[t.Pick("referer", 4, 1, 1, 1, 1, 1)]
 	c.Status = []int{200, 200, 200, 404, 500, 302, 201}[t.Choice(7, "status")]
 	c.CType = []string{"text/html", "text/html; charset=utf-8", "application/xhtml+xml", "application/json", "text/plain", "image/png", "text/css", "application/javascript", "application/octet-stream", ""}[t.Pick("ctype", 4, 3, 1, 2, 2, 1, 1, 1, 1, 1)]
 	c.CDisp = []string{"", "", "inline", "attachment; filename=\"x.html\""}[t.Choice(4, "cdisp")]
@@ -253,7 +274,7 @@ func worldC14(w *World) {
 				if !cs.bannerMay() {
 					w.Violation("banner", "the banner frame replaced a response that is not a 200 non-attachment HTML reply to a GET accepting text/html | %s accept=%q -> %d %q disp=%q", cs.Method, cs.Accept, cs.Status, cs.CType, cs.CDisp)
 				}
-				if cs.FetchDst == "iframe" || cs.FetchMod == "nested-navigate" || cs.Referer == "http://example.test"+cs.Target {
+				if cs.framed() {
 					w.Violation("banner", "a request that is already framed got the banner frame instead of the original body | dest=%q mode=%q referer=%q", cs.FetchDst, cs.FetchMod, cs.Referer)
 				}
 				if !bytes.Contains(m.Body, []byte(cs.Target)) {
@@ -289,7 +310,7 @@ func worldC14(w *World) {
 				}
 				w.Probe("non_html_untouched")
 			}
-			if cs.bannerMay() && banner && (cs.FetchDst == "iframe" || cs.FetchMod == "nested-navigate" || cs.Referer == "http://example.test"+cs.Target) {
+			if cs.bannerMay() && banner && cs.framed() {
 				w.Probe("already_framed_original_body")
 			}
 			if i := bytes.Index(cs.Body, []byte("<head>")); i >= 1018 && i <= 1023 {
